@@ -1165,12 +1165,29 @@ func getLoginDestination(r *http.Request) string {
 	loginDestination := profilePath
 	if r.FormValue("login_destination") != "" {
 		inboundLoginDestination := r.Form.Get("login_destination")
-		if strings.HasPrefix(inboundLoginDestination, "/") &&
-			!strings.HasPrefix(inboundLoginDestination, "//") {
+		if isLocalLoginDestination(inboundLoginDestination) {
 			loginDestination = inboundLoginDestination
 		}
 	}
 	return loginDestination
+}
+
+// isLocalLoginDestination returns true if a browser resolves the destination
+// against our own origin: a single leading slash that is followed by neither
+// a slash nor a backslash (both start a scheme-relative URL) and no control
+// characters (browsers strip tabs and newlines before resolving).
+func isLocalLoginDestination(destination string) bool {
+	if !strings.HasPrefix(destination, "/") ||
+		strings.HasPrefix(destination, "//") ||
+		strings.HasPrefix(destination, "/\\") {
+		return false
+	}
+	for i := 0; i < len(destination); i++ {
+		if destination[i] < 0x20 || destination[i] == 0x7f {
+			return false
+		}
+	}
+	return true
 }
 
 //const loginPath = "/api/v0/login"
